@@ -13,6 +13,9 @@ RULES = {
              "precedes the save - the compared term is the saved term",
     "R13.3": "who may write TokenInfo.mint: instantiate, and paths guarded as R13.1; the new value is None or "
              "MinterData{minter: validated new address, cap: stored cap}",
+    "R13.5": "tokens come into existence only where the supply rises (shared with C01 R01.1 / R01.2 / R01.4): on every path the sum of "
+             "balance changes equals the supply change, so no handler other than the guarded mint can create tokens and the supply "
+             "the cap is compared with is the true one",
     "R13.4": "instantiate: when a cap is given, (cap < total_supply) = false guards the TOKEN_INFO save",
 }
 
@@ -140,6 +143,14 @@ def run(ctx):
                            sample={"cap": show(cap)[:120], "total": show(ts)[:120]})
                 else:
                     ctx.ob("R13.4", "instantiate/no-minter", True, trivial=True)
+    from . import C01
+    sub = type(ctx)(ctx.pid, ctx.facts, ctx.engine, ctx.tier, ctx.tree_hash)
+    C01.run(sub)
+    for k in sub.order:
+        o = sub.obs[k]
+        if o.rule in ("R01.1", "R01.2", "R01.3", "R01.4") and not o.key.startswith(("anchor", "floor")):
+            ctx.ob("R13.5", o.rule + " " + o.key, True if o.status == "discharged" else (None if o.status == "undecided" else False),
+                   detail="; ".join(o.details), sites=o.sites, sample=o.sample)
     ctx.floor("R13.1", "supply-raising writes outside instantiate", n_mint, 1)
     ctx.floor("R13.3", "writes of TokenInfo.mint outside instantiate", n_role, 2)
     ctx.floor("R13.4", "instantiate TOKEN_INFO saves", n_inst, 1)
